@@ -52,7 +52,7 @@ def scenario(v, wd, name, kinds, thorough, out):
             c.send(b"still?")
             c.recv_some(timeout=2.0, want=6)
             works = bytes(c.rx[:6]) == b"still?"
-            closed = bool(c.eof or c.err is not None)
+            # `closed` stays what the quiet client saw: a tunnel that only ends once the client writes into it was not closed
         w.rec({"ev": "tcheck", "kind": k, "tid": i, "closed": closed, "works": works})
         return closed, works
 
